@@ -19,7 +19,7 @@ def gen_C01(ctx):
     out += st_malformed(ctx, ctx.n(6000, 400000), shapes, "c01-mal")
     out += st_tokens(ctx, ["S"], 3 if ctx.tier == "quick" else 4, TOKENS_Q, prefix="pkg:t/")
     out += st_token_sample(ctx, ctx.n(4000, 300000), shapes, TOKENS_T, "c01-tok")
-    out += st_long(ctx, shapes, "c01-long", every=ctx.tier == "thorough") + st_long_runs()
+    out += st_long(ctx, shapes, "c01-long", every=ctx.tier == "thorough") + st_long_runs() + st_sep_offsets() + st_escape_runs(shapes)
     out += st_classes(ctx, shapes, "c01-cls")
     out += st_huge(ctx)
     out += st_scalars_parse(utf8_boundary_scalars())
@@ -40,7 +40,7 @@ def gen_C03(ctx):
     out += st_builder(ctx, ctx.n(8000, 400000), ["S", "P", "CB", "M"], "c03-build")
     out += st_classes(ctx, ["S", "P"], "c03-cls") + st_classes_build(ctx, ["S", "P", "CB", "M"], "c03-clsb")
     out += st_fmtlim(ctx, ctx.n(1500, 100000), ["S", "P"], "c03-fmtlim")
-    out += st_long(ctx, ["S", "P"], "c03-long", every=ctx.tier == "thorough") + st_long_api(ctx) + st_long_runs()
+    out += st_long(ctx, ["S", "P"], "c03-long", every=ctx.tier == "thorough") + st_long_api(ctx) + st_long_runs() + st_sep_offsets()
     out += st_scalars(["ns", "name", "version", "qvalue", "subpath"], step=1 if ctx.tier == "thorough" else 4099)
     out += st_scalars_at(utf8_boundary_scalars(), ["ns", "name", "version", "qvalue", "subpath"])
     if ctx.tier == "quick":
@@ -57,6 +57,7 @@ def gen_C04(ctx):
     out += st_malformed(ctx, ctx.n(5000, 300000), shapes, "c04-mal")
     out += st_builder(ctx, ctx.n(8000, 400000), ["S", "P", "CB", "CO", "M"], "c04-build")
     out += st_shape(ctx, ctx.n(3000, 100000), "c04-shape")
+    out += st_dup_keys(shapes)
     out += st_long(ctx, shapes, "c04-long", every=ctx.tier == "thorough")
     out += st_classes(ctx, shapes, "c04-cls") + st_classes_build(ctx, ["S", "P", "CB", "CO", "M"], "c04-clsb")
     out += st_cksum_texts(ctx, ("parse", "build"))
@@ -72,6 +73,7 @@ def gen_C06(ctx):
     out += st_builder(ctx, ctx.n(6000, 500000), ["S", "P", "CB", "CO", "M"], "c06-build", maxsteps=8)
     out += st_quals(ctx, ctx.n(4000, 300000), "c06-quals")
     out += st_bsearch(ctx, ctx.n(1000, 100000), "c06-bsearch")
+    out += st_sep_offsets() + st_escape_runs(shapes)
     out += st_cksum(ctx, ctx.n(3000, 300000), "c06-cksum", commas=True)
     out += st_long(ctx, shapes, "c06-long", every=ctx.tier == "thorough") + st_long_api(ctx)
     out += st_huge(ctx)
@@ -126,6 +128,42 @@ def st_long_runs():
             enc = esc if tag == "esc" else x
             s_ = "pkg:t/g/%s@%s?k=%s#%s" % (enc, enc, enc, enc)
             out.append(case("parse S " + hx(s_), "long-runs", s=s_, shape="S", nomodel=L > 4097))
+    return out
+
+
+def st_sep_offsets():
+    """every separator of the canonical string ('/' after the namespace, '@', '?', '=', '&', '#') at an output offset one
+    below / exactly at / one above the sizes of the usual staging buffers (64 ... 8192, 65536), the bytes before it plain or
+    made of escapes (so that the boundary also falls inside a %XX): what is written must not depend on where a chunk of
+    the output happens to end.  Builder and parser (of the canonical spelling)."""
+    out = []
+
+    def pad(n, kind):
+        # a component whose ENCODED form has exactly n bytes
+        if kind == "plain" or n < 8:
+            return ("ab" * n)[:n], ("ab" * n)[:n]
+        k = (n - 2) // 6
+        raw = "\u00e9" * k + ("a" * (n - 6 * k))
+        return raw, "%C3%A9" * k + ("a" * (n - 6 * k))
+
+    for B in (64, 128, 256, 512, 1024, 2048, 4096, 8192, 65536):
+        for T in ((B - 1, B, B + 1) if B < 65536 else (B,)):
+            for kind in ("plain", "esc"):
+                nm = B > 4096
+                # (builder script, canonical string) per separator
+                r, e = pad(T - 6, kind)
+                cases = [("ns:%s" % hx(r), hx("n"), "pkg:t/%s/n" % e)]
+                cases.append(("ver:%s" % hx("1"), hx(r), "pkg:t/%s@1" % e))
+                r, e = pad(T - 8, kind)
+                cases.append(("ver:%s;q:%s:%s" % (hx(r), hx("k"), hx("v")), hx("n"), "pkg:t/n@%s?k=v" % e))
+                cases.append(("ver:%s;sub:%s" % (hx(r), hx("s")), hx("n"), "pkg:t/n@%s#s" % e))
+                key = ("k" + "abcdefgh" * (T // 8 + 1))[:T - 8]
+                cases.append(("q:%s:%s" % (hx(key), hx("v")), hx("n"), "pkg:t/n?%s=v" % key))
+                r, e = pad(T - 10, kind)
+                cases.append(("q:%s:%s;q:%s:%s" % (hx("a"), hx(r), hx("b"), hx("1")), hx("n"), "pkg:t/n?a=%s&b=1" % e))
+                for script, name, canon in cases:
+                    out.append(case("build S %s %s %s" % (hx("t"), name, script), "sep-offsets", shape="S", nomodel=nm))
+                    out.append(case("parse S " + hx(canon), "sep-offsets", s=canon, shape="S", nomodel=nm))
     return out
 
 
@@ -318,6 +356,7 @@ def gen_C05(ctx):
     out += st_cksum_texts(ctx, ("parse",))
     out += st_scheme_subst(shapes)
     out += st_dup_keys(shapes)
+    out += st_escape_runs(shapes)
     return out
 
 
@@ -331,6 +370,7 @@ def gen_C07(ctx):
     out += st_long(ctx, ["S", "M", "P"], "c07-long", every=ctx.tier == "thorough")
     out += st_classes(ctx, ["S", "M", "P"], "c07-cls")
     out += [dict(c, stream="scheme-c07") for c in st_scheme_subst(["S"]) if "%" in c["s"]]
+    out += st_escape_runs(["S", "P"])
     out += st_scalars_parse(utf8_boundary_scalars())
     return out
 
